@@ -228,3 +228,32 @@ Qed.
 Example C19_example_legacy_guard :
   forall x, In x [mkMsg s_system [83] []; mkMsg s_user [104;105] []] -> std_role (role x) /\ content x <> [].
 Proof. intros x [<-|[<-|[]]]; split; try discriminate; [left | right; left]; reflexivity. Qed.
+
+(** ** where the scan can stop, and what the chat handler passes *)
+
+(** rendering [system messages of msgs[:i]] ++ msgs[i:] is the same list for i and i+1 when msgs[i] is a system
+    message, so the scan stops at an image-free system message only if it is the one right before the latest
+    message (which is never measured) - the situation repaired by fixes/C19-system-at-stop.patch *)
+Theorem C19_stop_at_system :
+  forall render count mllama projcount numctx msgs n m,
+    scan_all render count mllama projcount numctx msgs = Ok (S n) ->
+    nth_error msgs n = Some m -> is_system m = true -> images m = [] -> S n = (length msgs - 1)%nat.
+Proof. exact stop_at_system. Qed.
+Print Assumptions C19_stop_at_system.
+
+(** server/routes.go ChatHandler: the conversation is the model's messages followed by the request's (so the latest
+    message of the request is the latest message of the conversation), with the model's system prompt in front
+    exactly when it is non-empty and the request does not start with a system message *)
+Theorem C19_handler_conversation :
+  forall system model_msgs req,
+    req <> [] ->
+    exists pre, chat_msgs system model_msgs req = pre ++ model_msgs ++ req /\
+      ((pre = [] /\ (system = [] \/ exists r0 t, req = r0 :: t /\ is_system r0 = true)) \/
+       (pre = [mkMsg s_system system []] /\ system <> [] /\ exists r0 t, req = r0 :: t /\ is_system r0 = false)).
+Proof. exact chat_msgs_spec. Qed.
+Print Assumptions C19_handler_conversation.
+
+Example C19_example_stop_at_system :
+  scan_all (render_style ex_style) count_fields false false 2
+    [mkMsg s_system [83;32;83;32;83;32;83] []; mkMsg s_user [104;105] []] = Ok 1%nat.
+Proof. vm_compute. reflexivity. Qed.
